@@ -239,6 +239,7 @@ func (c *Coll) Paths() [][]string {
 type World struct {
 	Merge  MergeFn
 	Ref    []*Coll          // Ref[k] = content after k batches
+	NOps   []int            // NOps[k] = operations (incl. child batches) in batch k; NOps[0] = 0
 	ByHash map[string][]int // hash -> prefix indexes (ascending)
 }
 
@@ -254,6 +255,9 @@ func NewWorld(init *Coll, merge MergeFn) *World {
 
 func (w *World) push(c *Coll) {
 	w.Ref = append(w.Ref, c)
+	if len(w.NOps) < len(w.Ref) {
+		w.NOps = append(w.NOps, 0)
+	}
 	h := c.Hash()
 	w.ByHash[h] = append(w.ByHash[h], len(w.Ref)-1)
 }
@@ -269,6 +273,16 @@ func (w *World) Apply(b *Batch) {
 	c := w.Cur().Clone()
 	c.Apply(b, w.Merge)
 	w.push(c)
+	w.NOps[len(w.Ref)-1] = b.NumOps()
+}
+
+// PendingOps sums the operations of the batches after prefix k.
+func (w *World) PendingOps(k int) int {
+	n := 0
+	for i := k + 1; i < len(w.Ref) && i < len(w.NOps); i++ {
+		n += w.NOps[i]
+	}
+	return n
 }
 
 // Prefixes returns the prefix indexes whose content hashes to h.
@@ -293,4 +307,7 @@ func (w *World) TruncateTo(k int) {
 		}
 	}
 	w.Ref = w.Ref[:k+1]
+	if len(w.NOps) > k+1 {
+		w.NOps = w.NOps[:k+1]
+	}
 }
